@@ -3,6 +3,9 @@
 package main
 
 import (
+	"strconv"
+	_ "unsafe" // go:linkname
+
 	"bytes"
 	"encoding/binary"
 	"encoding/hex"
@@ -12,6 +15,9 @@ import (
 	"github.com/janelia-flyem/dvid/datastore"
 	"github.com/janelia-flyem/dvid/datatype/annotation"
 	"github.com/janelia-flyem/dvid/datatype/imageblk"
+	"github.com/janelia-flyem/dvid/datatype/imagetile"
+	"github.com/janelia-flyem/dvid/datatype/labelsz"
+	"github.com/janelia-flyem/dvid/datatype/tarsupervoxels"
 	"github.com/janelia-flyem/dvid/datatype/keyvalue"
 	"github.com/janelia-flyem/dvid/datatype/labelmap"
 	"github.com/janelia-flyem/dvid/datatype/neuronjson"
@@ -69,7 +75,38 @@ type keySpec struct {
 	P   [][2]int `json:"p,omitempty"`  // x, y, z each as <<hi (signed), lo>>
 	Sc  int      `json:"sc,omitempty"` // labelmap scale
 	C   int      `json:"c,omitempty"`  // class for mintk / maxtk
+	U   []int    `json:"u,omitempty"`  // a uint32 as <<hi, lo>>
+	A   []int    `json:"a,omitempty"`  // plane axes
+	E   []int    `json:"e,omitempty"`  // extension bytes
+	M   []int    `json:"m,omitempty"`  // a second uint64 as limbs
 }
+
+func bytesOf(a []int) string {
+	b := make([]byte, len(a))
+	for i, x := range a {
+		b[i] = byte(x)
+	}
+	return string(b)
+}
+
+func u64Of(limbs []int) uint64 {
+	var u uint64
+	for _, l := range limbs {
+		u = u<<16 | uint64(uint16(l))
+	}
+	return u
+}
+
+func (k keySpec) u32() uint32 {
+	if len(k.U) != 2 {
+		return 0
+	}
+	return uint32(k.U[0])<<16 | uint32(uint16(k.U[1]))
+}
+
+//go:linkname newMutcacheKey github.com/janelia-flyem/dvid/datatype/labelmap.newMutcacheKey
+func newMutcacheKey(label, mutID uint64) storage.TKey
+
 
 func (k keySpec) str() string {
 	b := make([]byte, len(k.S))
@@ -121,6 +158,49 @@ func (k keySpec) tkey() (storage.TKey, error) {
 		return labelmap.NewBlockTKey(uint8(k.Sc), &idx), err
 	case "lmindex":
 		return labelmap.NewLabelIndexTKey(k.u64()), nil
+	case "szsl":
+		return labelsz.NewTypeSizeLabelTKey(labelsz.IndexType(k.C), k.u32(), k.u64()), nil
+	case "sztl":
+		return labelsz.NewTypeLabelTKey(labelsz.IndexType(k.C), k.u64()), nil
+	case "tile":
+		p, err := k.pt()
+		if err != nil {
+			return nil, err
+		}
+		var plane dvid.DataShape
+		switch fmt.Sprint(k.A) {
+		case "[0 1]":
+			plane = dvid.XY
+		case "[0 2]":
+			plane = dvid.XZ
+		case "[1 2]":
+			plane = dvid.YZ
+		default:
+			return nil, fmt.Errorf("bad plane %v", k.A)
+		}
+		return imagetile.NewTKey(p, plane, imagetile.Scaling(k.Sc))
+	case "tarsv":
+		sv, err := strconv.ParseUint(k.str(), 10, 64)
+		if err != nil {
+			return nil, err
+		}
+		return tarsupervoxels.NewTKey(sv, bytesOf(k.E))
+	case "lmaff":
+		return labelmap.NewAffinitiesTKey(k.u64()), nil
+	case "lmmut":
+		return newMutcacheKey(k.u64(), u64Of(k.M)), nil
+	case "plain":
+		switch k.C {
+		case 180:
+			return neuronjson.NewSchemaTKey()
+		case 181:
+			return neuronjson.NewSchemaBatchTKey()
+		case 182:
+			return neuronjson.NewJSONSchemaTKey()
+		case 24:
+			return imageblk.MetaTKey(), nil
+		}
+		return nil, fmt.Errorf("no constructor for the payload-less key of class %d", k.C)
 	case "mintk":
 		return storage.MinTKey(storage.TKeyClass(k.C)), nil
 	case "maxtk":
@@ -500,4 +580,63 @@ func callKeysDump(args json.RawMessage) (interface{}, error) {
 		out = []string{}
 	}
 	return out, nil
+}
+
+func init() { calls["keys.tkeys"] = callKeysTKeys }
+
+// callKeysTKeys lists the distinct datum keys (hex) stored for one data instance.
+func callKeysTKeys(args json.RawMessage) (interface{}, error) {
+	var a struct{ UUID, Name string }
+	if err := json.Unmarshal(args, &a); err != nil {
+		return nil, err
+	}
+	d, err := datastore.GetDataByUUIDName(dvid.UUID(a.UUID), dvid.InstanceName(a.Name))
+	if err != nil {
+		return nil, err
+	}
+	db, err := datastore.GetOrderedKeyValueDB(d)
+	if err != nil {
+		return nil, err
+	}
+	lo, hi := storage.DataInstanceKeyRange(d.InstanceID())
+	ch := make(chan *storage.KeyValue, 100)
+	out := []string{}
+	seen := map[string]bool{}
+	done := make(chan struct{})
+	go func() {
+		defer close(done)
+		for kv := range ch {
+			if kv == nil {
+				return
+			}
+			tk, err := storage.TKeyFromKey(kv.K)
+			h := hex.EncodeToString(tk)
+			if err != nil {
+				h = "?" + hex.EncodeToString(kv.K)
+			}
+			if !seen[h] {
+				seen[h] = true
+				out = append(out, h)
+			}
+		}
+	}()
+	if err := db.RawRangeQuery(lo, hi, true, ch, nil); err != nil {
+		close(ch)
+		<-done
+		return nil, err
+	}
+	<-done
+	return out, nil
+}
+
+func init() {
+	calls["inst.deletebyuuid"] = func(args json.RawMessage) (interface{}, error) {
+		var a struct {
+			DataUUID string `json:"datauuid"`
+		}
+		if err := json.Unmarshal(args, &a); err != nil {
+			return nil, err
+		}
+		return nil, datastore.DeleteDataByDataUUID(dvid.UUID(a.DataUUID), "")
+	}
 }
